@@ -171,7 +171,7 @@ def run(ctx):
             and (r['shape']['ang'] == 0 or r['shape']['kind'] in ('circle', 'cann'))][:4]
     bad = []
     for k, r in enumerate(good):
-        r2 = json.loads(json.dumps(r)); r2['id'] = 10**9 + k
+        r2 = core.jcopy(r); r2['id'] = 10**9 + k
         r2['median_k' if k % 2 else 'mean_k'] += 3 * S
         bad.append(r2)
     if bad:
